@@ -1026,7 +1026,7 @@ where
                 let objs: Vec<&EObj<'a, T>> = srcs.iter().map(|&k| env.get(k)).collect::<Option<Vec<_>>>()?;
                 let first = *objs.first()?;
                 const BASE: usize = 1 << 20;
-                let name_of = |d: &'static str| d[1..].parse::<usize>().expect("dimension name");
+                let name_of = |d: &'static str| crate::sx::undim(d);
                 let (shape, ids): (Vec<(usize, usize)>, Vec<usize>) = if first.tensor {
                     let bases: Vec<Tensor<usize, D>> = objs
                         .iter()
